@@ -11,6 +11,7 @@ allocations).  Called from props/C11.py:
 """
 import json, os, re, subprocess
 import vlib
+import alloc_common
 
 PKG = "internal/allocator"
 FILES = ["zz_verif_alloc_test.go", "zz_verif_allocmaps_test.go"]
@@ -55,7 +56,7 @@ def run_allocmaps(ctx, sigs=None, n_quick=60, n_thorough=1500):
     state = {"nfail": 0}
 
     def harness(n, seed, tag):
-        recs, ok, log = ctx.go_harness(PKG, FILES, "TestVerifAllocMaps$", n=n, seed=seed, tag=tag)
+        recs, ok, log = alloc_common.go_alloc_harness(ctx, FILES, "TestVerifAllocMaps$", n=n, seed=seed, tag=tag)
         for r in recs:
             if r.get("t") == "fail" and (sigs is None or r.get("sig") in sigs):
                 state["nfail"] += 1
